@@ -65,6 +65,17 @@ every spelling of the arguments, members from defaults only, one member,
 members that are empty containers, field-less objects / functors) and with
 each of the other constructor keywords
 (`ctor[<shape class>]{<protection mode>}/<probe class>|<mode>`).
+
+Values the library produces from a protected value (driver 10): clone / deep
+clone / copy.copy / copy.deepcopy / pg.clone / Dict.copy, the implicit copy for
+a second parent, values rebuilt from JSON / pickle / List.copy / list
+operators, each made outside and inside every scope -- of Dict / List / Object
+trees, every symbolic class kind, hyper values and pg.DNA with metadata at
+three levels.  Below every sealed node of the copy every node (incl. the
+members the copy routine re-attaches itself: DNA metadata, attribute dicts)
+is sealed and refuses every mutator; the copy of a sealed value is sealed;
+seal(False) on the copy restores full mutability
+(`copy[<family>]/<source kind>@<node class>/<is_sealed | probe class>|<mode>`).
 """
 import threading
 import traceback
@@ -299,6 +310,10 @@ def _walk_state(root):
       # Bound-argument bookkeeping is part of the value's state.
       flat.append((sorted(v.specified_args), sorted(v.non_default_args),
                    sorted(v.default_args)))
+    if isinstance(v, pg.DNA):
+      # The (compact) JSON form of a DNA leaves out the metadata of its child
+      # DNAs: every DNA node contributes its own value and metadata.
+      flat.append((repr(v.value), pg.to_json(v.sym_getattr('metadata'))))
     for _, c in v.sym_items():
       if isinstance(c, pg.Symbolic):
         walk(c)
@@ -609,6 +624,9 @@ def effective(stack, obj_flag):
 
 
 _REF = {}
+# tree name -> source of the state expression of its witnesses (for trees whose
+# JSON form is lossy).
+_TREE_STATE = {}
 
 
 def changed_owners(a, b, path=()):
@@ -673,6 +691,8 @@ def witness(tree, setup_lines, sealed_stack, acc_stack, addr, src, expect):
   if tree in ('k-functor', 'k-subfunctor'):
     state = ('(pg.to_json(root), sorted(root.h.specified_args), '
              'sorted(root.h.non_default_args), sorted(root.h.default_args))')
+  if tree in _TREE_STATE:
+    state = _TREE_STATE[tree]
   if expect == 'unchanged-ids':
     # The change is not visible in the JSON form (a node was replaced by an
     # equal one): node identities are part of "exactly as it was".
@@ -731,10 +751,15 @@ def _acc_source(acc_stack):
 
 def _attempt(rec, tree, root, setup_lines, sealed_stack, acc_stack, addr, kind,
              name, src, sealed_eff, writable_eff, cfg, ref_addr=None,
-             start_sealed=None):
-  """Runs one op under the config and judges it."""
+             start_sealed=None, snap_cache=None):
+  """Runs one op under the config and judges it.  `snap_cache` (a dict owned
+  by the caller) carries the state of a tree that the previous operation left
+  exactly as it was, so that it is not walked again."""
   n = resolve(root, addr)
-  before, keep_alive = _walk_state(root)
+  if snap_cache is not None and snap_cache.get('root') is root:
+    before, keep_alive = snap_cache['snap']
+  else:
+    before, keep_alive = _walk_state(root)
   err = None
   try:
     with Scopes(sealed_stack, acc_stack):
@@ -742,6 +767,10 @@ def _attempt(rec, tree, root, setup_lines, sealed_stack, acc_stack, addr, kind,
   except Exception as e:  # pylint: disable=broad-except
     err = e
   after = snapshot(root)
+  if snap_cache is not None:
+    snap_cache.clear()
+    if after == before:
+      snap_cache.update(root=root, snap=(before, keep_alive))
   scopes_clean = (pg_flags.is_under_sealed_scope() is None and
                   pg_flags.is_under_accessor_writable_scope() is None)
   unchanged = after == before
@@ -2498,10 +2527,516 @@ def drv_ctor_boundary(tier, seed):
   return rec.result()
 
 
+# --------------------------------------------------------------------------
+# Driver 10: values the library produces FROM a protected value (clone /
+# deep clone / copy.copy / copy.deepcopy / pg.clone / Dict.copy, the implicit
+# copy made when a value that already has a parent becomes a member of a
+# second parent, values rebuilt from JSON / pickle / List.copy).
+#
+# Oracle.  The statement: "while a symbolic value is sealed ... every API that
+# would change it or any of its descendants raises ... sealing a value seals
+# all symbolic descendants".  A copy whose root (or any node N of it) reports
+# is_sealed is a sealed value: every symbolic node at/below N -- including the
+# members the copy routine re-attaches itself, such as the metadata dict of a
+# pg.DNA and the metadata of its child DNAs, and the attribute dict of every
+# object -- must be sealed, and every mutating API at each of those nodes must
+# be refused with the copy unchanged.  For the copy routines proper (not the
+# rebuilt values) the copy of a node that the driver itself sealed (bookkeeping,
+# never the flag of the original) must be sealed as well: the copy constructor
+# is handed the protection of the original.  The accessor flag is per value:
+# pg.Dict / pg.List copies must carry it (constructor keyword), and wherever a
+# node of the copy reports accessor_writable == False its accessors must be
+# refused while rebind works.
+# --------------------------------------------------------------------------
+
+COPY_SRC = """import copy, pickle
+def c08_copy(r, seal=(), off=(), at='', how='n.clone()', sc=None):
+  for v in [r] + r.sym_descendants(lambda v: isinstance(v, pg.Symbolic)):
+    if off == '*' or str(v.sym_path) in off: v.set_accessor_writable(False)
+  for p in seal: r.sym_get(p).seal()
+  with sc or pg.as_sealed(None):
+    return eval(how, {'pg': pg, 'copy': copy, 'pickle': pickle, 'n': r.sym_get(at)})
+"""
+PRE['dna'] = """import pyglove as pg
+def c08_dna():
+  d = pg.DNA(None, [pg.DNA(0), pg.DNA(1, [pg.DNA(2)])])
+  d.set_metadata('m', pg.Dict(z=1, l=[1]), cloneable=True).set_metadata('nc', 5)
+  d.children[0].set_metadata('c', pg.Dict(q=1), cloneable=True)
+  d.children[1].children[0].set_metadata('g', [1], cloneable=True)
+  return d
+"""
+exec(compile(PRE['dna'], '<c08-preamble>', 'exec'), _NS)  # pylint: disable=exec-used
+for _k in [k for k in PRE if not k.startswith(('p:', 'b-'))]:
+  PRE['cp:' + _k] = PRE[_k] + COPY_SRC
+exec(compile(COPY_SRC, '<c08-preamble>', 'exec'), _NS)  # pylint: disable=exec-used
+
+COPY_EXTRA_TREES = {
+    'cp-dna': ('c08_dna()', 'dna'),
+    'cp-dna-in': ('pg.Dict(h=c08_dna(), t=5)', 'dna'),
+    'cp-dna-leaf': ("pg.DNA(1, metadata=dict(a=1)).set_metadata("
+                    "'k', pg.Dict(z=1), cloneable=True)", 'plain'),
+    'cp-hyper': ('pg.Dict(h=pg.oneof([pg.Dict(a=1), pg.List([1])]), '
+                 'm=pg.manyof(2, [1, 2, pg.Dict(b=2)]), t=5)', 'plain'),
+}
+TREES.update(COPY_EXTRA_TREES)
+for _k, _v in COPY_EXTRA_TREES.items():
+  _TREE_CODE[_k] = compile(_v[0], f'<tree {_k}>', 'eval')
+
+_DNA_STATE = ('[pg.to_json(x) for x in root.sym_descendants('
+              'lambda x: isinstance(x, pg.Symbolic), include_self=True)]')
+
+# (source-kind label [case id], tree, protected by its constructor keyword:
+#  sealed paths, accessor-off paths)
+COPY_SOURCES = (
+    [('dict', 'dict', (), ()), ('list', 'list', (), ()),
+     ('object', 'obj', (), ()), ('typed-dict', 'spec', (), ())] +
+    [(KINDS[t][0], t, (), ()) for t in KIND_TREES] +
+    [('dna', 'cp-dna', (), ()), ('dna', 'cp-dna-in', (), ()),
+     ('dna', 'cp-dna-leaf', (), ()), ('hyper', 'cp-hyper', (), ()),
+     ('dict', 'ctor-sealed', ('',), ()),
+     ('typed-dict', 'ctor-sealed-spec', ('',), ()),
+     ('object', 'ctor-sealed-obj', ('',), ()),
+     ('dict', 'ctor-off', (), ('', 'b', 'c', 't'))])
+
+_APPEND2 = '(lambda c: (c.append(n), c.append(n), c)[-1])(pg.List())'
+_SETITEM2 = ("(lambda c: (c.__setitem__('a', n), c.__setitem__('b', n), c)"
+             "[-1])(pg.Dict())")
+# (label [key], family [case id], expression over `n`, path of the copy in the
+#  result, copy routine proper?, node kinds it applies to | None, primary?)
+COPY_HOWS = [
+    ('clone()', 'shallow-copy', 'n.clone()', '', True, None, True),
+    ('sym_clone()', 'shallow-copy', 'n.sym_clone()', '', True, None, False),
+    ('copy.copy', 'shallow-copy', 'copy.copy(n)', '', True, None, False),
+    ('pg.clone', 'shallow-copy', 'pg.clone(n)', '', True, None, False),
+    ('dict.copy()', 'shallow-copy', 'n.copy()', '', True, ('dict',), False),
+    ('clone(deep=True)', 'deep-copy', 'n.clone(deep=True)', '', True, None,
+     True),
+    ('sym_clone(deep=True)', 'deep-copy', 'n.sym_clone(deep=True)', '', True,
+     None, False),
+    ('copy.deepcopy', 'deep-copy', 'copy.deepcopy(n)', '', True, None, True),
+    ('pg.clone(deep=True)', 'deep-copy', 'pg.clone(n, deep=True)', '', True,
+     None, False),
+    ('clone(deep=True, memo={})', 'deep-copy', 'n.clone(deep=True, memo={})',
+     '', True, None, False),
+    ('list-ctor', 'implicit-copy-for-second-parent', 'pg.List([n, n])', '[1]',
+     True, None, True),
+    ('dict-ctor', 'implicit-copy-for-second-parent', 'pg.Dict(a=n, b=n)', 'b',
+     True, None, False),
+    ('list.append', 'implicit-copy-for-second-parent', _APPEND2, '[1]', True,
+     None, False),
+    ('dict.setitem', 'implicit-copy-for-second-parent', _SETITEM2, 'b', True,
+     None, False),
+    ('list.copy()', 'list.copy()', 'n.copy()', '', False, ('list',), False),
+    ('from_json(to_json)', 'rebuilt-from-json', 'pg.from_json(pg.to_json(n))',
+     '', False, None, False),
+    ('pickle', 'rebuilt-by-pickle', 'pickle.loads(pickle.dumps(n))', '', False,
+     None, False),
+    ('list + []', 'derived-by-operator', 'n + []', '', False, ('list',), False),
+    ('list * 1', 'derived-by-operator', 'n * 1', '', False, ('list',), False),
+    # "unsealing restores full mutability" holds for a copy, too.
+    ('clone().seal(False)', 'copy-then-unseal', 'n.clone().seal(False)', '',
+     False, None, False),
+    ('clone(deep=True).seal(False)', 'copy-then-unseal',
+     'n.clone(deep=True).seal(False)', '', False, None, False),
+]
+# (scope the copy is made in, restricting?)
+COPY_SCOPES = [(None, False), ('pg.as_sealed(False)', False),
+               ('pg.as_sealed(True)', True),
+               ('pg.allow_writable_accessors(False)', True),
+               ('pg.allow_writable_accessors(True)', False),
+               ('pg.track_origin(True)', False)]
+
+DNA_OPS = [
+    ('dna.set_metadata/new-key', 'meth', "n.set_metadata('zz', 1)"),
+    ('dna.set_metadata/cloneable', 'meth',
+     "n.set_metadata('zz', 1, cloneable=True)"),
+    ('dna.set_metadata/symbolic-value', 'meth',
+     "n.set_metadata('zz', pg.Dict(q=1))"),
+    ('dna.setattr/value', 'acc', 'n.value = 7'),
+    ('dna.setattr/metadata', 'acc', 'n.metadata = pg.Dict(zz=1)'),
+    ('dna.delattr/metadata', 'acc', 'del n.metadata'),
+    ('dna.rebind/value', 'rebind', 'n.rebind(value=7)'),
+    ('dna.rebind/metadata-key', 'rebind', "n.rebind({'metadata.zz': 1})"),
+    ('dna.rebind/metadata', 'rebind', 'n.rebind(metadata=pg.Dict(zz=1))'),
+    ('dna.rebind/reset-metadata', 'rebind',
+     'n.rebind(metadata=pg.MISSING_VALUE)'),
+    ('dna.rebind/children', 'rebind', 'n.rebind(children=[pg.DNA(3)])'),
+    ('dna.sym_rebind', 'rebind', "n.sym_rebind({'metadata.zz': 1})"),
+    ('dna.rebind/fn', 'rebind',
+     'n.rebind(lambda k, v: 7 if isinstance(v, int) else v)'),
+    ('dna.patch', 'rebind', "pg.patch(n, {'metadata.zz': 1})"),
+]
+HYPER_OPS = [
+    ('object.setattr', 'acc', 'n.candidates = [1, 2]'),
+    ('object.delattr', 'acc', 'del n.candidates'),
+    ('object.rebind/kwargs', 'rebind', 'n.rebind(candidates=[1, 2])'),
+    ('object.rebind/dict', 'rebind', "n.rebind({'candidates[0]': 9})"),
+    ('object.sym_rebind', 'rebind', "n.sym_rebind({'candidates[0]': 9})"),
+]
+COPY_OPS = dict(OPS, dna=DNA_OPS, hyper=HYPER_OPS)
+COPY_PROBE = {
+    k: tuple(PROBE_ACC[k]) + tuple(PROBE_OTHER[k])
+    for k in ('dict', 'list', 'object')}
+COPY_PROBE['dna'] = tuple(n_ for n_, _, _ in DNA_OPS if n_ not in (
+    'dna.set_metadata/cloneable', 'dna.sym_rebind', 'dna.rebind/fn'))
+COPY_PROBE['hyper'] = tuple(n_ for n_, _, _ in HYPER_OPS)
+COPY_MIN = {'dict': ('dict.setitem/new', 'dict.rebind/kwargs'),
+            'list': ('list.setitem/index', 'list.append'),
+            'object': ('object.setattr', 'object.rebind/kwargs'),
+            'dna': ('dna.set_metadata/new-key', 'dna.rebind/value'),
+            'hyper': ('object.setattr', 'object.rebind/dict')}
+COPY_ATTR = {'full': ATTR_DICT_OPS,
+             'probe': ('dict.setitem/existing', 'dict.delitem',
+                       'dict.update/dict', 'dict.rebind/dict'),
+             'min': ('dict.setitem/existing',)}
+
+
+def _copy_kind(n):
+  if isinstance(n, pg.DNA):
+    return 'dna'
+  if isinstance(n, pg.Object) and not n.sym_hasattr('x'):
+    return 'hyper'
+  return kind_of(n)
+
+
+def _copy_ops(k, level, attr_dict):
+  if attr_dict:
+    names = COPY_ATTR[level]
+    table = DICT_OPS
+  else:
+    table = COPY_OPS[k]
+    names = (None if level == 'full' else
+             COPY_PROBE[k] if level == 'probe' else COPY_MIN[k])
+  seen = set()
+  out = []
+  for n_, k_, s_ in table:
+    if (names is None or n_ in names) and (n_, s_) not in seen:
+      seen.add((n_, s_))
+      out.append((n_, k_, s_))
+  return out
+
+
+def _copy_probe_class(name, kind):
+  if 'set_metadata' in name:
+    return 'set_metadata'
+  if name.startswith(('pg.patch', 'dna.patch')):
+    return 'rebind'
+  return _bnd_probe_class(name, kind)
+
+
+def _copy_where(rel, via, in_dna):
+  """Class of a node of the copy from its path `rel` relative to the copy."""
+  keys = pg.KeyPath.parse(rel).keys if rel else []
+  if in_dna and ('metadata' in keys or 'children' in keys or in_dna == 'root'
+                 or (keys and keys[0] == 'h')):
+    if 'metadata' in keys:
+      # (the metadata of the copied DNA and of its child DNAs are re-attached
+      # by the same routine)
+      return 'dna-metadata'
+    child = any(isinstance(k, int) and i and keys[i - 1] == 'children'
+                for i, k in enumerate(keys))
+    w = 'child-dna' if child else 'dna'
+    if via:
+      w += '-attr-dict'
+    return w
+  if not keys:
+    return 'copy-root-attr-dict' if via else 'copy-root'
+  return 'member-attr-dict' if via else 'member'
+
+
+def _join(at, rel):
+  if not at:
+    return rel[1:] if rel.startswith('.') else rel
+  if rel and rel[0] not in '.[':
+    return at + '.' + rel
+  return at + rel
+
+
+def _copy_run(rec, ptree, srckind, fam, prefix, at, proper, exp_sealed,
+              exp_off, level, cfg, max_permitted=None):
+  """Flag facts and operations on every node of the copy held by `ptree`."""
+  pool = Pool(ptree)
+  root = pool.get()
+  head = [pre_of(ptree), f'root = {TREES[ptree][0]}']
+  in_dna = srckind.startswith('dna')
+  if in_dna and isinstance(resolve(root, (prefix, '')), pg.DNA):
+    in_dna = 'root'
+  region = [(p, n) for p, n in sym_nodes(root) if is_within(p, prefix)]
+  sealed_at = [p for p, n in region if n.is_sealed]
+  sealed_at += [p for p, n in region
+                if isinstance(n, pg.Object) and n.sym_init_args.is_sealed]
+
+  def obs_sealed(p):
+    return any(is_within(p, q) for q in sealed_at)
+
+  def cid_of(rel, via, what):
+    return f'copy[{fam}]/{srckind}@{_copy_where(rel, via, in_dna)}/{what}'
+
+  copy_root = resolve(root, (prefix, ''))
+  root_ok = True
+  wrong = []
+
+  def flag_case(cid, key, ok, msg, wit):
+    if not ok:
+      wrong.append(cid)
+    rec.case(cid, key, ok, msg, wit)
+  if proper and exp_sealed(at):
+    root_ok = copy_root.is_sealed is True
+  addrs = []
+  for p, n in region:
+    rel = p[len(prefix):]
+    orig = _join(at, rel)
+    # (the copied value itself was sealed: its copy is sealed as a whole; a
+    # seal that only a member of the copied value carried is checked where
+    # the copy reports it)
+    want_b = proper and root_ok and exp_sealed(at)
+    checks = [(n, (p, ''), _copy_kind(n))]
+    if isinstance(n, pg.Object):
+      checks.append((n.sym_init_args, (p, 'attrs'), 'dict'))
+    for m, a, k in checks:
+      addrs.append((a, k, rel, want_b))
+      above = [q for q in sealed_at if is_within(p, q) and (q != p or a[1])]
+      if p == prefix and not a[1]:
+        if proper and exp_sealed(at):
+          flag_case(cid_of(rel, '', 'is_sealed'), (cfg, a), m.is_sealed is True,
+                   f'{cfg}: the copy of a sealed value reports is_sealed='
+                   f'{m.is_sealed!r}',
+                   '\n'.join(head + [f'assert {node_expr(a)}.is_sealed']))
+      elif want_b or above:
+        flag_case(cid_of(rel, a[1], 'is_sealed'), (cfg, a), m.is_sealed is True,
+                 f'{cfg}: node {a} of the copy reports is_sealed='
+                 f'{m.is_sealed!r} below a sealed node (sealed: {sealed_at})',
+                 '\n'.join(head + [f'assert {node_expr(a)}.is_sealed']))
+      if proper and p == prefix and not a[1] and k in ('dict', 'list'):
+        want_w = not exp_off(orig)
+        flag_case(cid_of(rel, '', 'accessor_writable'), (cfg, a),
+                 m.accessor_writable is want_w,
+                 f'{cfg}: node {a} of the copy reports accessor_writable='
+                 f'{m.accessor_writable!r}, the original had {want_w}',
+                 '\n'.join(head + [
+                     f'assert {node_expr(a)}.accessor_writable is {want_w}']))
+  unsealed = fam == 'copy-then-unseal'
+  if unsealed:
+    for a, k, rel, _ in addrs:
+      m = resolve(root, a)
+      flag_case(cid_of(rel, a[1], 'is_sealed-after-seal(False)'), (cfg, a),
+                m.is_sealed is False,
+                f'{cfg}: node {a} of the unsealed copy reports is_sealed='
+                f'{m.is_sealed!r}',
+                '\n'.join(head + [f'assert not {node_expr(a)}.is_sealed']))
+  ops = []
+  permitted = 0
+  # (operations that are expected to go through cost a fresh copy each: the
+  # copy root and the re-attached members come first)
+  addrs.sort(key=lambda t: (t[0][0] != prefix, 'metadata' not in t[2]))
+  for a, k, rel, want_b in addrs:
+    s_eff = bool(want_b or obs_sealed(a[0])) and not unsealed
+    w_off = not a[1] and not resolve(root, a).accessor_writable
+    if not s_eff and not w_off and not (unsealed and not a[1]):
+      continue  # an unprotected node of the copy: nothing is claimed here
+    for name, kind, src in _copy_ops(k, level, bool(a[1])):
+      if not s_eff and (kind != 'acc' or unsealed) and (
+          level != 'full' or unsealed) and name not in COPY_MIN[k][
+              :1 if unsealed else 2]:
+        continue  # accessors off only: one permitted operation per node
+      if not s_eff and kind != 'acc' and any(
+          is_within(q, a[0]) for q in sealed_at):
+        continue  # may reach a sealed node below this unsealed one
+      if not s_eff and (kind != 'acc' or unsealed):
+        permitted += 1
+        if max_permitted is not None and permitted > max_permitted:
+          continue
+      ops.append((a, kind, cid_of(rel, a[1], _copy_probe_class(name, kind)),
+                  src, s_eff))
+  if level != 'min':
+    for name, a_addr, src, target in ancestor_rebind_ops(root):
+      if not (is_within(a_addr[0], prefix) and obs_sealed(a_addr[0])):
+        continue
+      ops.append((a_addr, 'rebind', cid_of(
+          target[len(prefix):], '', 'rebind-through-ancestor'), src, True))
+  cache = {}
+  for a, kind, cid, src, s_eff in ops:
+    if wrong:
+      # One defect, one id: the flags of this copy are already not what they
+      # must be; the operations show the consequence.
+      cid = wrong[0] + '+behaviour'
+    r = pool.get()
+    node = resolve(r, a)
+    pool.done(attempt(rec, ptree, r, [], (), (), a, kind, cid, src, s_eff,
+                      node.accessor_writable, cfg, start_sealed=s_eff,
+                      snap_cache=cache))
+
+
+def drv_copies(tier, seed):
+  global _REF  # pylint: disable=global-statement
+  rec = Recorder(
+      'C08', 'values produced from a protected value by the library (clone / '
+      'deep clone / copy.copy / copy.deepcopy / pg.clone / Dict.copy, the '
+      'implicit copy for a second parent, values rebuilt from JSON / pickle / '
+      'List.copy) are protected throughout: below every sealed node of the '
+      'copy every symbolic node is sealed -- incl. re-attached members such as '
+      'the metadata dict of a pg.DNA and of its child DNAs and the attribute '
+      'dict of objects -- and every mutator at each of them is refused; the '
+      'copy of a sealed node is sealed; Dict / List copies keep the accessor '
+      'flag and refuse accessor writes accordingly',
+      scope='sources: 4 base trees, 7 symbolic class kinds, pg.DNA with '
+      'cloneable + non-cloneable metadata at 3 levels (alone, inside a '
+      'pg.Dict, a leaf DNA), hyper values (oneof / manyof), 4 trees protected '
+      'by constructor keywords; protection: seal at the root / at inner nodes, '
+      'accessors off at every node, both; copied node: root and inner nodes; '
+      '21 copy forms (4 primary ones x 5 scopes around the copy); operations '
+      'at every protected node of the copy and its attribute dicts: full op '
+      'tables incl. 14 DNA APIs (set_metadata, rebind of value / metadata / '
+      'children, pg.patch) for the DNA source under clone() / clone(deep=True)'
+      ', 8-12 probes under the other primary forms, 1-2 probes elsewhere '
+      '(quick: 2 inner nodes, seeded sample of 2 non-primary forms and 1-2 '
+      'scopes per configuration except for the main DNA configuration; '
+      'thorough: up to 7 inner nodes, every form, full tables for every form '
+      'of the main configuration, probes elsewhere)')
+  quick = tier == 'quick'
+  r = rng(seed, 'c08-copies')
+  saved_ref = _REF
+  try:
+    for si, (srckind, tree, ctor_seal, ctor_off) in enumerate(COPY_SOURCES):
+      prekey = 'cp:' + TREES[tree][1]
+      proto = build(tree)
+      nodes = sym_nodes(proto)
+      paths = [p for p, _ in nodes]
+      kinds = dict((p, kind_of(n)) for p, n in nodes)
+      init_off = set(p for p, n in nodes if not n.accessor_writable)
+      is_dna = srckind.startswith('dna')
+      rich = tree == 'cp-dna'
+      inner = paths[1:]
+      if quick:
+        # a node with symbolic members of its own (a child DNA / the object of
+        # the kind trees) and the last node
+        pick = [p for p in inner if p.endswith(('children[1]', 'h'))][:1]
+        inner = sorted(set((pick or inner[:1]) + inner[-1:]), key=paths.index)
+      elif len(inner) > 7:
+        pick = [p for p in inner if p.endswith(('children[1]', 'metadata'))]
+        inner = sorted(set(inner[:2] + inner[-2:] + pick[:3]),
+                       key=paths.index)
+      # (seal paths, off paths, copied nodes); the first config with its first
+      # copied node is the main one.
+      if ctor_seal or ctor_off:
+        configs = [((), (), [''] + inner[:1])]
+      elif quick:
+        configs = [(('',), (), [''] + inner[:1]),
+                   ((inner[-1],), (), [inner[-1]]),
+                   ((inner[0],), (), ['', inner[0]][1 - is_dna:]),
+                   ((), tuple(paths), [''])]
+      else:
+        configs = [(('',), (), [''] + inner)]
+        configs += [((q,), (), ['', q]) for q in inner]
+        configs += [((), tuple(paths), [''] + inner[:1]),
+                    (('',), tuple(paths), [''])]
+      plan = []
+      for ci, (seal, off, ats) in enumerate(configs):
+        for ai, at in enumerate(ats):
+          main = ci == 0 and ai == 0
+          hows = [h for h in COPY_HOWS
+                  if not (h[5] and kinds[at] not in h[5])]
+          # classes of the preambles cannot be pickled / rebuilt from JSON
+          if not (is_dna or tree in ('dict', 'list', 'cp-hyper')):
+            hows = [h for h in hows if h[0] != 'pickle']
+          if tree == 'k-wrapper':
+            hows = [h for h in hows if h[0] != 'from_json(to_json)']
+          prim = [h for h in hows if h[6]]
+          unseal = [h for h in hows if h[1] == 'copy-then-unseal']
+          if not main or seal != ('',):
+            hows = [h for h in hows if h not in unseal]
+          if quick and not (main and rich):
+            rest = [h for h in hows if not h[6] and h not in unseal]
+            if off:
+              # (accessor flags: the copy constructors of Dict / List only)
+              hows = prim[:2] + r.sample(rest, 1)
+            else:
+              hows = prim + r.sample(rest, min(1 if ci else 2, len(rest)))
+            if main and seal == ('',):
+              hows += unseal[:1] if si % 2 else unseal[1:]
+          for h in hows:
+            plan.append((seal, off, at, h, None, False, main))
+          scoped = COPY_SCOPES[1:]
+          if not quick or (main and rich):
+            pairs = [(h, sc) for h in prim for sc in scoped]
+          else:
+            k0 = r.randrange(len(scoped))
+            pairs = [(h, scoped[(k0 + i) % len(scoped)])
+                     for i, h in enumerate(prim[:0 if off else 2 if main
+                                                else 1])]
+          for h, (scope, restricts) in pairs:
+            plan.append((seal, off, at, h, scope, restricts, main))
+      for (seal, off, at, how_t, scope, restricts, main) in plan:
+        hlabel, fam, how, prefix, proper, _, primary = how_t
+        sealed_paths = tuple(seal) + tuple(ctor_seal)
+        off_paths = set(off) | set(ctor_off) | init_off
+
+        def exp_sealed(p0, sp_=sealed_paths):
+          return any(is_within(p0, q) for q in sp_)
+
+        def exp_off(p0, op_=off_paths):
+          return p0 in op_
+        args = [TREES[tree][0]]
+        if seal:
+          args.append(f'seal={seal!r}')
+        if off:
+          args.append("off='*'")
+        if at:
+          args.append(f'at={at!r}')
+        args.append(f'how={how!r}')
+        if scope:
+          args.append(f'sc={scope}')
+        src = f"c08_copy({', '.join(args)})"
+        ptree = f'cp~{si}'
+        TREES[ptree] = (src, prekey)
+        _TREE_CODE[ptree] = compile(src, '<copy>', 'eval')
+        if is_dna:
+          _TREE_STATE[ptree] = _DNA_STATE
+        _REF = {}
+        famtag = fam  # (the scope around the copy is part of the key)
+        cfg = (f'{tree} seal={seal} off={"*" if off else ()} '
+               f'ctor={ctor_seal}{ctor_off} at={at!r} {hlabel} '
+               f'sc={scope}')
+        try:
+          try:
+            build(ptree)
+          except Exception as e:  # pylint: disable=broad-except
+            na = (not proper) or (restricts and isinstance(e, WPE))
+            rec.case(f'copy[{famtag}]/{srckind}/copy-fails', cfg, na,
+                     f'{src}: {type(e).__name__}: {e}',
+                     f'{PRE[prekey].strip()}\nroot = {src}',
+                     nontrivial=not na)
+            continue
+          if not quick:
+            level = ('min' if scope else
+                     'full' if main and (is_dna or primary) else 'probe')
+          elif main and primary and not scope:
+            level = 'full' if rich and hlabel in (
+                'clone()', 'clone(deep=True)') else 'probe'
+          else:
+            level = 'min'
+          _copy_run(rec, ptree, srckind, famtag, prefix, at, proper,
+                    exp_sealed, exp_off, level, cfg,
+                    3 if quick else None)
+        except Exception as e:  # pylint: disable=broad-except
+          rec.case(f'copy[{famtag}]/{srckind}|harness-exception', cfg,
+                   False, f'{type(e).__name__}: {e}: '
+                   + traceback.format_exc()[-400:],
+                   f'{PRE[prekey].strip()}\nroot = {src}\n'
+                   'pg.to_json(root)')
+        finally:
+          TREES.pop(ptree, None)
+          _TREE_CODE.pop(ptree, None)
+          _TREE_STATE.pop(ptree, None)
+  finally:
+    _REF = saved_ref
+  return rec.result()
+
+
 DRIVERS = [drv_sealed_flag, drv_sealed_scopes, drv_accessor,
            drv_seal_histories, drv_symbolic_kinds,
            drv_helpers_and_seal_apis, drv_protection_persists,
-           drv_composition, drv_ctor_boundary]
+           drv_composition, drv_ctor_boundary, drv_copies]
 
 
 def replay(rec):
